@@ -44,7 +44,9 @@ pub const ORIG_CLASSES: &[&str] = &[
 ];
 pub const OBF_METHODS: &[&str] = &["a", "b", "m", "<init>", "c", "ab", "a$", "k", "onClick", "\u{1D49C}", "\u{FF21}",
     // NUL inside a name: `(name, args)` compared as a tuple vs as one joined string
-    "a\u{0}", "k\u{0}b", "a\u{1}"];
+    "a\u{0}", "k\u{0}b", "a\u{1}",
+    // white space is part of a name: nothing trims the obfuscated name or the argument string
+    "\t", "\u{3000}", "a ", " a", "\u{a0}"];
 pub const ORIG_METHODS: &[&str] = &[
     "foo", "bar", "<init>", "lambda$x$0", "baz", "foo2", "onClick", "x", "<clinit>", "méthode",
     // concatenation coincidences with ARGS ("" ++ "intfoo" = "int" ++ "foo", …)
@@ -52,7 +54,7 @@ pub const ORIG_METHODS: &[&str] = &[
     // … and in the other order ("fooint" ++ "" = "foo" ++ "int", …)
     "fooint", "xint", "barint,long", "xa.b",
 ];
-pub const ARGS: &[&str] = &["", "int", "java.lang.String", "int,long", "a.b", "android.view.View", "int[]", "z", "b", "b\u{0}c", "c", "\u{0}"];
+pub const ARGS: &[&str] = &["", "int", "java.lang.String", "int,long", "a.b", "android.view.View", "int[]", "z", "b", "b\u{0}c", "c", "\u{0}", " b", "a", " a", "a ", " ", "\t"];
 pub const TYPES: &[&str] = &["void", "int", "java.lang.String", "a.b[]", "o.A", "boolean", "é.T"];
 pub const FILES: &[&str] = &["Foo.kt", "Bar.java", "R8$$SyntheticClass", "SourceFile", "Ünï.kt", "x", "C:\\src\\Foo.kt", "a\\", "\\", "R8$$SyntheticClass", "{}", "a:b",
     // white space inside / around a quoted file name is part of the name
